@@ -1311,3 +1311,42 @@ def kb10(P, C):
                  (params[pid]["name"], k, f.render(i)[:50], lower.get(pid, 0)))
     if n == 0:
         raise core.AnalysisBroken("KB-10: no container argument subscripted at a fixed position (the stacking constructor's tables/coordinates expected)")
+
+
+PURE_IN_ASSERT = {"size", "front", "back", "empty", "data", "begin", "end", "cbegin", "cend", "strlen", "strcmp", "strncmp", "isfinite", "isnan",
+                  "is_sorted", "abs", "fabs", "min", "max", "count", "find", "at", "operator[]", "operator()", "operator==", "operator!=",
+                  "operator<", "operator->", "operator*", "get"}
+
+
+def as2(P, C, units_prefix=("fitter/", "driver", "core/", "cinter/")):
+    """AS-2: nothing happens inside an assertion."""
+    C.rule("AS-2", "the condition of an `assert` has no effect: no assignment, no increment, and no call other than observers (`get_*`, `size`, "
+           "`strlen`, comparisons, …). The library is built with NDEBUG, where the whole expression — a lock, an allocation, a store "
+           "wrapped in `assert(... == 0)` — is not compiled at all, while the analysis (and a debug build) still sees it", floor=20)
+    n = 0
+    for f in sorted(P.functions.values(), key=lambda g: (g.file, g.line)):
+        if not f.file.startswith(core.REPO) or not any(f.unit.startswith(u) for u in units_prefix):
+            continue
+        seen = set()
+        for i in f.walk():
+            nd = f.nodes[i]
+            if "assert" not in (nd.get("macros") or []) or f.k(i) != "ConditionalOperator":
+                continue
+            c = nd["ch"][0]
+            if c in seen:
+                continue
+            seen.add(c)
+            bad = []
+            for x in f.walk(c):
+                m = f.nodes[x]
+                if m["k"] in ("CompoundAssignOperator", "CXXNewExpr", "CXXDeleteExpr") or (m["k"] == "BinaryOperator" and m.get("op") == "=") or \
+                        (m["k"] == "UnaryOperator" and m.get("op") in ("++", "--")):
+                    bad.append(f.render(x)[:50])
+                cal = m.get("callee")
+                if cal and not (cal["name"].startswith(("get_", "is", "operator")) or cal["name"] in PURE_IN_ASSERT):
+                    bad.append("call of %s" % cal["name"])
+            n += 1
+            C.ob("AS-2", f.name, "assert@%s" % f.render(c)[:40], not bad, f.loc(i),
+                 "the asserted condition only observes" if not bad else
+                 "assert(%s) contains %s: with NDEBUG — the configuration the library is built in — it does not happen" % (f.render(c)[:60], bad[0]))
+    return n
